@@ -78,6 +78,7 @@ type Engine struct {
 	stack      []string
 	violSeen   map[string]bool
 	asserts    int64
+	liftFns    map[string]bool
 	initMode   bool
 	curInit    *ssa.Function
 	pkgs       []*packages.Package
@@ -93,7 +94,7 @@ type Violation struct {
 
 func NewEngine(prog *ssa.Program) *Engine {
 	return &Engine{prog: prog, stubs: map[string]Value{}, globals: map[*ssa.Global]int{}, feas: true, unwind: 64, maxDepth: 200,
-		mergeOn: true, violSeen: map[string]bool{}, funcsSeen: map[string]bool{}, covers: map[string]map[string]uint64{}, coverSeen: map[string]bool{}, notes: map[string]int64{}}
+		mergeOn: true, liftFns: map[string]bool{}, violSeen: map[string]bool{}, funcsSeen: map[string]bool{}, covers: map[string]map[string]uint64{}, coverSeen: map[string]bool{}, notes: map[string]int64{}}
 }
 
 type unsupported struct{ msg string }
@@ -148,6 +149,29 @@ func (e *Engine) callFunction(fn *ssa.Function, args []Value, env []Value, st *S
 	if sv, ok := e.stubs[name]; ok {
 		fv := sv.(*FuncV)
 		return e.callFunction(fv.fn, args, fv.env, st, depth, site)
+	}
+	if e.liftFns[name] && len(args) == 1 {
+		if t, ok := args[0].(*Term); ok && t.op != OpConst && t.leaves > 1 && t.leaves <= 64 {
+			vs, _ := getVS(t)
+			var acc Value
+			for i := len(vs) - 1; i >= 0; i-- {
+				outs := e.callFunction(fn, []Value{BV(vs[i].val, t.w)}, env, st, depth, site)
+				if len(outs) != 1 || outs[0].pan != nil {
+					e.unsupported("lifted call %s: %d outcomes", name, len(outs))
+				}
+				st = outs[0].st
+				if acc == nil {
+					acc = outs[0].ret
+					continue
+				}
+				m, ok := mergeVal(vs[i].g, outs[0].ret, acc)
+				if !ok {
+					e.unsupported("lifted call %s: unmergeable results", name)
+				}
+				acc = m
+			}
+			return []Outcome{{st: st, ret: acc}}
+		}
 	}
 	if outs, ok := e.intrinsic(fn, name, args, st, depth, site); ok {
 		return outs
@@ -258,7 +282,11 @@ func (e *Engine) mergeGroup(f *frame, group []*item) []*item {
 	var res []*item
 	for _, o := range group {
 		merged := false
-		for _, r := range res {
+		start := 0
+		if len(res) > 6 {
+			start = len(res) - 6
+		}
+		for _, r := range res[start:] {
 			if !sameDefers(r.defers, o.defers) {
 				continue
 			}
@@ -462,6 +490,20 @@ func (e *Engine) load(st *State, p Ptr) Value {
 	return v
 }
 
+func navigate(v Value, path []int) Value {
+	for _, i := range path {
+		switch x := v.(type) {
+		case *StructV:
+			v = x.f[i]
+		case *ArrayV:
+			v = x.e[i]
+		default:
+			panic(fmt.Sprintf("navigate: bad path into %T", v))
+		}
+	}
+	return v
+}
+
 func (e *Engine) loadSym(st *State, p Ptr, o *Object) Value {
 	// container elements
 	var elems []Value
@@ -475,15 +517,16 @@ func (e *Engine) loadSym(st *State, p Ptr, o *Object) Value {
 	if p.sym.hi < uint64(hi) {
 		hi = int(p.sym.hi)
 	}
-	if p.path == nil && p.sym != nil {
-		// slice-relative: path nil and elems = cells
-	}
 	if lo > hi {
-		return elems[0]
+		return navigate(elems[0], p.post)
 	}
-	r := elems[hi]
+	r := navigate(elems[hi], p.post)
 	for k := hi - 1; k >= lo; k-- {
-		m, ok := mergeVal(Eq(p.sym, BV(uint64(k), 64)), elems[k], r)
+		c := Eq(p.sym, BV(uint64(k), 64))
+		if c == FF {
+			continue
+		}
+		m, ok := mergeVal(c, navigate(elems[k], p.post), r)
 		if !ok {
 			e.unsupported("symbolic index over unmergeable elements")
 		}
@@ -519,11 +562,15 @@ func (e *Engine) store(st *State, p Ptr, v Value) {
 			if uint64(k) < p.sym.lo || uint64(k) > p.sym.hi {
 				continue
 			}
-			m, ok := mergeVal(Eq(p.sym, BV(uint64(k), 64)), v, o.cells[k])
+			c := Eq(p.sym, BV(uint64(k), 64))
+			if c == FF {
+				continue
+			}
+			m, ok := mergeVal(c, v, navigate(o.cells[k], p.post))
 			if !ok {
 				e.unsupported("symbolic-index store of unmergeable value")
 			}
-			o.cells[k] = m
+			o.cells[k] = setPath(o.cells[k], p.post, m)
 		}
 		return
 	}
@@ -593,9 +640,15 @@ func (e *Engine) runItem(f *frame, it *item) {
 				e.goTo(f, it, it.blk.Succs[1], true)
 				return
 			}
+			if d := it.st.decide(c); d >= 0 {
+				e.goTo(f, it, it.blk.Succs[1-d], true)
+				return
+			}
+			sv := singleVar(c)
+			_, small := fullDom2(sv)
 			e.forks++
 			for k, cond := range []*Term{c, Not(c)} {
-				if e.feas {
+				if e.feas && !small {
 					q := append(append([]*Term(nil), it.st.pc...), cond)
 					if e.solver.Check(q) == ResUnsat {
 						continue
@@ -699,10 +752,16 @@ func (e *Engine) runItem(f *frame, it *item) {
 			if b.cond == FF {
 				continue
 			}
-			if b.cond != TT && e.feas {
-				q := append(append([]*Term(nil), it.st.pc...), b.cond)
-				if e.solver.Check(q) == ResUnsat {
+			if b.cond != TT {
+				if d := it.st.decide(b.cond); d == 0 {
 					continue
+				} else if d < 0 && e.feas {
+					if _, small := fullDom2(singleVar(b.cond)); !small {
+						q := append(append([]*Term(nil), it.st.pc...), b.cond)
+						if e.solver.Check(q) == ResUnsat {
+							continue
+						}
+					}
 				}
 			}
 			feasible = append(feasible, b)
@@ -807,6 +866,13 @@ func (e *Engine) Run(fn *ssa.Function) (outs []Outcome, err error) {
 	st := NewState()
 	outs = e.callFunction(fn, nil, nil, st, 0, nil)
 	return outs, nil
+}
+
+func fullDom2(v *Term) (uint64, bool) {
+	if v == nil || v == multiVar {
+		return 0, false
+	}
+	return fullDom(v)
 }
 
 func lastN(s []string, n int) []string {
